@@ -36,6 +36,26 @@ def run_case(c):
             ts.append(int(st[0]))
         splits.append({"pts": pts, "ts": ts, **diff(st[1], base)})
     out["splits"] = splits
+    # the same chains with jax-array bounds (concrete) and through one jitted runner with traced bounds
+    def chain(pts, mode):
+        st = (0, arrays)
+        first = True
+        ts = []
+        if mode == "traced":
+            runner = {}
+        for e in pts:
+            a, b = int(st[0]), int(e)
+            if mode == "concrete":
+                st = custom_fdtd_forward(arrays=st[1], objects=oc, config=cfg, key=KEY, reset_container=first, record_detectors=True,
+                                         start_time=jnp.asarray(a, dtype=jnp.int32), end_time=jnp.asarray(b, dtype=jnp.int32), show_progress=False)
+            else:
+                f = jax.jit(lambda arr, s0, s1, _first=first: custom_fdtd_forward(arrays=arr, objects=oc, config=cfg, key=KEY, reset_container=_first,
+                                                                               record_detectors=True, start_time=s0, end_time=s1, show_progress=False))
+                st = f(st[1], jnp.asarray(a, dtype=jnp.int32), jnp.asarray(b, dtype=jnp.int32))
+            first = False
+            ts.append(int(st[0]))
+        return {"pts": pts, "ts": ts, "mode": mode, **diff(st[1], base)}
+    out["array_splits"] = [chain(c["splits"][1], "concrete"), chain(c["splits"][-2 if len(c["splits"]) > 2 else 0], "traced")]
     # re-run from the returned arrays, and from a dirty container
     t1, again = fdtdx.run_fdtd(arrays=base, objects=oc, config=cfg, key=KEY, show_progress=False)
     out["rerun"] = {"t": int(t1), **diff(again, base)}
